@@ -171,6 +171,13 @@ class TermEval:
         if len(iters) != 1:
             raise Unknown("nested comprehension")
         it = iters[0]
+        counted = None
+        start = 0
+        if it[0] == "call" and it[1] == "enumerate":
+            counted = it[2][0]
+            if len(it[2]) > 1:
+                start = self.ev(it[2][1])
+            it = counted
         if it[0] == "call" and it[1] == "zip":
             srcs = list(it[2])
             seqs = [list(self.ev(x)) for x in srcs]
@@ -188,6 +195,8 @@ class TermEval:
                     b[("elem", src, 0)] = seq[k]
                 if len(srcs) > 1:
                     b[("elem", it, 0)] = tuple(seq[k] for seq in seqs)
+                if counted is not None:
+                    b[("idx", counted, 0)] = k + start
                 self.binds = b
                 if all(bool(self.ev(c)) for c in conds):
                     out.append(self.ev(elt))
